@@ -295,6 +295,17 @@ def run_gmrf(c, rec):
     if isinstance(c["mean"], list):
         require(close(must(lambda: G.sqrtprecTimesMean, "sqrtprecTimesMean"), S @ mu, 1e-10),
                 "sqrtprecTimesMean != sqrtprec @ mean")
+    # the same quantities after the parameters were re-assigned on the live object
+    delta2 = delta * 3.5
+    mu2 = mu + 0.25
+    G.prec = delta2
+    G.mean = mu2.copy()
+    S2 = dense(G.sqrtprec)
+    require(close(S2.T @ S2, delta2 * P, tolS), "after assigning prec: sqrtprec^T sqrtprec != prec * D^T D", err=maxdiff(S2.T @ S2, delta2 * P))
+    require(close(G.sqrtprecTimesMean, S2 @ mu2, 1e-10), "after assigning mean/prec: sqrtprecTimesMean != sqrtprec @ mean")
+    r2 = x - mu2
+    require(close(float(G.logpdf(x)) - float(G.logpdf(mu2.copy())), -0.5 * delta2 * float(r2 @ P @ r2), 1e-8),
+            "after assigning mean/prec: quadratic form does not follow the new parameters")
 
 
 # ----------------------------------------------------------------------------- sub-check 4: LMRF / CMRF
